@@ -17,6 +17,6 @@ CHECKS["C09"] = dict(
           "per block X counts while X is newer than the collector's high QC; a certificate for X exactly at the vote that completes "
           "S_X, and votes for one block never disturb the votes collected for another. tree: see TestC09Kauri (signature cache of the "
           "tree node on and off). Non-trivial = a "
-          "certificate formed after a hostile vote or a vote that preceded its block; distinct = the history."),
+          "certificate formed after a hostile vote or a vote that preceded its block; distinct = the history. Early votes (TestC09VotingMachineEarlyVotes): all arrival orders of the proposals of views 1 and 2 and the votes of replicas 2..n for the block of view 2 at the collector (leader of view 3), n in {4,7}, with block requests answered or unanswered: a certificate exactly when the block and a quorum of valid votes for it have arrived."),
     assumptions=["the voters hold the block they vote for, so the collector can fetch it", "concurrent verification: interleavings are sampled under the race detector; waiting for goroutines uses time only as a guard (inconclusive, never a violation)"],
 )
